@@ -184,6 +184,9 @@ func receiveFromTransport(ctx context.Context, c *channel, done chan<- struct{})
 		if err != nil {
 			if ctx.Err() == nil {
 				log.Printf("receiveFromTransport: %v", err)
+				// Nothing can be received on this connection anymore although nobody
+				// asked for that: do not leave a channel that still looks established.
+				_ = c.transport.Close()
 			}
 			return
 		}
